@@ -146,3 +146,13 @@ def register(check, not_yet):
           "Outside: truncation inside the marshalled payload as a solver question (C), whole-namespace cache-vs-source equivalence, "
           "atomic rewrite, 64-bit hash collisions. marshal.loads contract (EOFError on truncation) validated by the runs in (3).",
           "SMT (z3) over PySym interpretation of the real header codec and keyword intern code; CrossHair; subprocess replays", "DESIGN.md section 4 C14", "B:pysym + A:crosshair")
+    check("C06", "exploration",
+          "Single-threaded consumption histories only: CrossHair chooses a consumption program (first/rest/next/seq on any cell "
+          "obtained so far), the sequence length and the index at which the element producer throws, for lazy-seq, map, filter, concat, "
+          "iterate and seqs over Python iterables compiled from core.lpy and driving the real native LazySeq/Cons; an offset model says "
+          "what each access must return, that each producer index runs at most once (twice for the index that threw), that nothing "
+          "beyond the demanded index is produced, and that an exception does not corrupt the sequence. The native module is rebuilt "
+          "from /repo/rust (cargo, offline) and the fresh build is used when it differs from the installed .so.",
+          "The schedules quantifier (2-3 consumer threads, deadlock freedom) is NOT decided: the mutual exclusion lives in native Rust "
+          "(parking_lot ReentrantMutex under the GIL), outside what CrossHair or my translator can encode. Data is concrete per path.",
+          "CrossHair (z3) exploration of solver-chosen consumption histories on the real lazy sequences", "DESIGN.md section 4 C06, section 5", "A:crosshair")
